@@ -243,7 +243,7 @@ def _(self, market_id: ATOM):
 
 
 # ----------------------------------------------------------------------------- __setitem__
-@contract("flumine/markets/blotter.py::Blotter.__setitem__", tags=["C15"], join_maps=True, heap_axioms=True)
+@contract("flumine/markets/blotter.py::Blotter.__setitem__", tags=["C15", "C16"], join_maps=True, heap_axioms=True)
 def _(self, customer_order_ref: ATOM, order: Ref("BaseOrder")):
     requires("new_id", customer_order_ref not in self._orders)
     requires("key_is_order_id", customer_order_ref == order.id)
@@ -352,7 +352,7 @@ def removed_at(l, r):
             and forall(lambda j: l[j] == (old(l[j]) if j < r else old(l[j + 1])), 0, len(l)))
 
 
-@contract("flumine/markets/blotter.py::Blotter.complete_order", tags=["C15"], heap_axioms=True, first_index=True)
+@contract("flumine/markets/blotter.py::Blotter.complete_order", tags=["C15", "C16"], heap_axioms=True, first_index=True)
 def _(self, order: Ref("BaseOrder")):
     requires("in_live_list", order in self._live_orders)
     requires("observed_complete", order.complete)  # "loses an order only after it has been observed complete"
